@@ -336,6 +336,61 @@ def swap_args(prog, f, e):
     return None
 
 
+def d2_values(ctx, prog, f, data, axis, key):
+    """the grouping decided by value numbering (sa.symtensor): on symbolic per-word weights of ranks 1..3 (extents chosen both equal
+    and different), every axis, nb_words 1..3, the value returned must be, at every position, the sum of the nb_words consecutive
+    weights of its group along the axis - every other axis in place, incomplete trailing groups dropped.  True when decided."""
+    from .. import symtensor, ratfun
+    np = symtensor.np
+    if np is None:
+        return False
+    Q = ratfun.Q
+
+    def hook(e, fn_, env, te):
+        # the per-word weights: the dispatch through the table of popcount lanes (checked by C15-D1) applied to the data
+        if isinstance(e.func, ast.Subscript) and len(e.args) == 1 and not e.keywords and isinstance(e.args[0], ast.Name) and e.args[0].id == data:
+            return te.ev(fn_, e.args[0], env)
+        return NotImplemented
+    n = 0
+    bad = None
+    try:
+        for shape in ((5,), (2, 4), (4, 2), (3, 3), (2, 2, 4), (2, 3, 2), (4, 2, 2), (3, 3, 3)):
+            arr = np.empty(shape, dtype=object)
+            for idx in np.ndindex(*shape):
+                arr[idx] = Q.sym('h' + ''.join(map(str, idx)))
+            for ax in range(len(shape)):          # Model.__call__ hands _compute a non-negative axis (C15-D4 checks the -1 mapping)
+                for k in (1, 2, 3):
+                    if shape[ax] < k:
+                        continue
+                    te = symtensor.TensorEval(prog, f.cls, {'self.nb_words': k, f'{data}.dtype.kind': 'u', f'{data}.dtype': 'DT', 'self.expected_dtype': 'DT'})
+                    te.call_hook = hook
+                    n += 1
+                    got = te.run(f, {data: arr.copy(), axis: ax})
+                    moved = np.moveaxis(arr, ax, -1)
+                    g = shape[ax] // k
+                    want = np.empty(moved.shape[:-1] + (g,), dtype=object)
+                    for idx in np.ndindex(*want.shape):
+                        tot = Q.const(0)
+                        for j in range(k):
+                            tot = tot + moved[idx[:-1] + (idx[-1] * k + j,)]
+                        want[idx] = tot
+                    want = np.moveaxis(want, -1, ax)
+                    if not isinstance(got, np.ndarray) or got.shape != want.shape:
+                        bad = bad or f'data of shape {shape}, axis {ax}, nb_words {k}: result of shape {getattr(got, "shape", None)}, the definition gives {want.shape}'
+                        continue
+                    for idx in np.ndindex(*want.shape):
+                        g_ = got[idx] if isinstance(got[idx], Q) else Q.lift(got[idx])
+                        if not g_.same(want[idx]) and bad is None:
+                            bad = f'data of shape {shape}, axis {ax}, nb_words {k}: entry {idx} is not the sum of the weights of its group of {k} consecutive words along the axis (other axes in place)'
+    except (ratfun.Unknown, symtensor.Raised) as e:
+        ctx.note(f'{key} values: not evaluable by value numbering ({e}); the axis-label interpretation decides alone')
+        return False
+    except (ValueError, IndexError, TypeError) as e:
+        bad = bad or f'the grouping code fails on a symbolic array ({type(e).__name__}: {e})'
+    ctx.check(bad is None, 'C15-D2', f'{key} values', f'{bad}', f'{n} (shape, axis, nb_words) cases: every entry is the sum of its group of consecutive words, other axes in place', f.where(), cases=n)
+    return True
+
+
 def d2(ctx, prog, dispatch_call):
     from .. import grouplayout as gl
     hw = prog.need_class(M, 'HammingWeight')
@@ -362,6 +417,7 @@ def d2(ctx, prog, dispatch_call):
         if norm(test) == norm(br.test):
             return sel[2] if take else sel[1]
         return bool(ceval(test, {'self.nb_words': 2 if take else 1}))
+    decided_by_value = d2_values(ctx, prog, f, data, axis, key)
     # layout interpretation over every (rank, axis) configuration, both branches
     nconf = 0
     seen_events = {}
@@ -374,7 +430,10 @@ def d2(ctx, prog, dispatch_call):
                 try:
                     ret = it.run()
                 except gl.Unknown as e:
-                    ctx.undecided('C15-D2', ckey, f'layout not derivable: {e}', f.where(br))
+                    if decided_by_value:
+                        ctx.note(f'{ckey}: the axis-label interpretation does not model this code shape ({e}); the configuration is decided by value numbering (C15-D2 values)')
+                    else:
+                        ctx.undecided('C15-D2', ckey, f'layout not derivable: {e}', f.where(br))
                     continue
                 for kind, node, text in it.events:
                     ek = (kind, norm(node)[:90], text)
@@ -584,8 +643,18 @@ def reducer_term(prog, f, e, data, axis, _depth=0):
         pre, arr = 'abs', arr.args[0]
     elif isinstance(arr, ast.Call) and last(norm(arr.func)) == 'negative' and len(arr.args) == 1:
         pre, arr = 'neg', arr.args[0]
+    n2n = None
+    if isinstance(arr, ast.Call) and last(norm(arr.func)) == 'nan_to_num' and arr.args and norm(arr.args[0]) == data and sibling is None:
+        n2n, arr = arr, arr.args[0]                 # abs / neg of nan_to_num(data)
     if norm(arr) != data:
         return None
+    if n2n is not None:
+        kws = {k.arg: norm(k.value).replace(' ', '') for k in n2n.keywords}
+        if len(n2n.args) > 1 or kws.get('nan', '0') not in ('0', '0.0'):
+            return None
+        infs = ('_np.inf', 'np.inf', 'numpy.inf', "float('inf')", 'math.inf')
+        kept = kws.get('posinf') in infs and kws.get('neginf') in tuple('-' + x for x in infs)
+        return f'nan_to_num:{name}:{"kept" if kept else "rewritten"}', pre, post, ax
     if sibling is not None:
         # a decorated sibling discriminant: its own term, composed; without an axis argument its wrapper default (-1) applies
         body = body_no_doc(sibling)
@@ -683,6 +752,16 @@ def d4(ctx, prog):
             ctx.undecided('C15-D4', key, f'`{norm(body[0].value)[:70]}` is not [-]reducer([-|abs](data), axis=...)', f.where())
             continue
         red, pre, post, ax = t
+        if red.startswith('nan_to_num:'):
+            _, inner_red, infs = red.split(':')
+            if inner_red not in ('sum',):
+                ctx.fail('C15-D4', key, f'{name} replaces NaN by 0 and reduces with `{inner_red}`: 0 is not neutral for it, NaN entries are not ignored but counted as 0', f.where(body[0]))
+                continue
+            if infs != 'kept':
+                ctx.fail('C15-D4', key, f'{name} passes the data through nan_to_num without keeping the infinities (posinf / neginf): an infinite entry is replaced by the largest finite number, '
+                         'so more than the NaN entries is changed (a +inf entry no longer gives inf, +inf with -inf no longer gives NaN)', f.where(body[0]))
+                continue
+            red = 'nansum'
         if red in NAN_BLIND:
             ctx.fail('C15-D4', key, f'{name} reduces with `{red}`, which propagates NaN: NaN entries are not ignored (use {NAN_BLIND[red]})', f.where(body[0]))
             continue
